@@ -92,6 +92,9 @@ def dict_from_pairs(eng, st, pairs, kkind=None, vkind=None):
         return ("ok", st, VObj(d.oid, "dict", "dict"))
     kkind = kkind or value_kind(pairs[0][0])
     vkind = vkind or value_kind(pairs[0][1])
+    if (kkind is None or vkind is None) and all(isinstance(k, VConc) for k, _ in pairs):
+        st, d = alloc_obj(st, "dict", {"pure": True, "pyitems": tuple((k.py, v) for k, v in pairs)})     # a record (literal keys)
+        return ("ok", st, VObj(d.oid, "dict", "dict"))
     if kkind is None or vkind is None:
         raise Unsupported("dict display with non-scalar entries")
     dom = z3.K(sort_of(kkind), z3.BoolVal(False))
@@ -223,6 +226,10 @@ def getitem(eng, st, obj, idx):
         return list_getitem(eng, st, obj, idx)
     if isinstance(obj, VObj) and obj.kind == "dict":
         return dict_getitem(eng, st, obj, idx)
+    if isinstance(obj, VConc) and isinstance(obj.py, str) and isinstance(idx, VSlice):
+        def c(x):
+            return None if isinstance(x, VNone) else _conc_index(x.t)
+        return [("ok", st, VConc(obj.py[slice(c(idx.lo), c(idx.hi), c(idx.step))]))]
     if isinstance(obj, VConc) and isinstance(obj.py, dict) and isinstance(idx, VConc):
         # constant dictionary, literal key
         return [("ok", st, obj.py[idx.py])] if idx.py in obj.py else [eng.raise_(st, "KeyError")]
@@ -1069,6 +1076,24 @@ def bi_list(eng, st, pos, kw):
     return mk(st, seq)
 
 
+def bi_map(eng, st, pos, kw):
+    """map(f, iterable) consumed by a for loop: lazy - f is called on the i-th element when the loop reaches it (side effects and
+    exceptions of f happen there); only usable as the iterable of a for loop with an invariant"""
+    from . import comprehension as C
+    if len(pos) != 2 or kw:
+        raise Unsupported("map with several iterables")
+    f = pos[0]
+
+    def mk(s, seq):
+        out = VSeq(seq.n, lambda s2, i: _raise_unsupported("element of map() outside a loop"), known_len=seq.known_len, tag="mapcall")
+        out.effect = lambda eng2, s2, i: eng2.call(s2, f, [seq.get(s2, i)], {})
+        return [("ok", s, out)]
+    seq = to_seq(eng, st, pos[1])
+    if seq is None:
+        return eng.bind(C.iterable_to_seq(eng, st, pos[1]), mk)
+    return mk(st, seq)
+
+
 def bi_sorted(eng, st, pos, kw):
     """sorted(iterable[, key=...]) = a new list that is a permutation of the iterable (the order BY KEY is not modelled: nothing
     may be concluded from it; same treatment as list.sort)"""
@@ -1178,7 +1203,7 @@ BUILTINS = {
     "enumerate": bi_enumerate, "islice": bi_islice, "range": bi_range, "str": bi_str, "repr": bi_opaque,
     "format": bi_opaque, "id": bi_opaque, "isinf": bi_isinf, "isnan": bi_isnan, "abs": bi_abs, "min": _minmax(True), "max": _minmax(False),
     "float": bi_float, "bool": bi_bool, "partial": bi_partial, "list": bi_list, "set": bi_set, "dict": bi_dict,
-    "OrderedDict": bi_dict, "sorted": bi_sorted, "attrgetter": bi_attrgetter,      # insertion order is what dict has anyway; move_to_end etc. are not modelled
+    "OrderedDict": bi_dict, "sorted": bi_sorted, "attrgetter": bi_attrgetter, "map": bi_map,      # insertion order is what dict has anyway; move_to_end etc. are not modelled
     "tuple": bi_tuple, "slice": bi_slice, "any": bi_any_all(True), "all": bi_any_all(False), "type": bi_type,
     "super": bi_super, "frozenset": bi_set,
 }
